@@ -276,4 +276,124 @@ example : ∃ t, computeTopology 4 [⟨0, 1, 2⟩, ⟨2, 1, 3⟩] = .ok t ∧ t.
   refine ⟨_, rfl, ?_⟩
   decide
 
+/-! ### the twin of a half-edge is the oppositely directed half-edge (fu5) -/
+
+/-- every entry `((a, b), h)` of `half_edge_map` is the half-edge `h = 3 f + k` of a triangle `f` of the index buffer, going
+from its `k`-th corner `a` to its next corner `b` -/
+private def MapGeom (idx : List Tri) (m : List Entry) : Prop :=
+  ∀ x ∈ m, ∃ f k tri, idx[f]? = some tri ∧ k < 3 ∧ x.2 = 3 * f + k ∧ x.1 = (Tri.get tri k, Tri.get tri ((k + 1) % 3))
+
+private theorem addHalfEdge_map {st st' : TopoState} {fid base k v vnext : Nat}
+    (h : addHalfEdge st fid base k v vnext = .ok st') :
+    st'.map = ((v, vnext), base + k) :: st.map ∧ st'.hes.length = st.hes.length + 1 := by
+  unfold addHalfEdge at h
+  simp only at h
+  split at h
+  · split at h <;> cases h
+  · split at h
+    · cases h; simp
+    · cases h
+
+private theorem topoFaces_geom (idx pre ts : List Tri) (st st' : TopoState) (hidx : idx = pre ++ ts)
+    (hlen : st.hes.length = 3 * pre.length) (hi : MapGeom idx st.map)
+    (h : topoFaces ts pre.length st = .ok st') : MapGeom idx st'.map := by
+  induction ts generalizing pre st with
+  | nil => rw [topoFaces] at h; cases h; exact hi
+  | cons t ts ih =>
+    rw [topoFaces_cons] at h
+    split at h
+    · cases h
+    · have htri : idx[pre.length]? = some t := by rw [hidx]; simp
+      cases h1 : addHalfEdge st pre.length st.hes.length 0 t.a t.b with
+      | panic => rw [h1] at h; cases h
+      | err e => rw [h1] at h; cases h
+      | ok st1 =>
+        rw [h1] at h
+        simp only at h
+        obtain ⟨m1, l1⟩ := addHalfEdge_map h1
+        cases h2 : addHalfEdge st1 pre.length st.hes.length 1 t.b t.c with
+        | panic => rw [h2] at h; cases h
+        | err e => rw [h2] at h; cases h
+        | ok st2 =>
+          rw [h2] at h
+          simp only at h
+          obtain ⟨m2, l2⟩ := addHalfEdge_map h2
+          cases h3 : addHalfEdge st2 pre.length st.hes.length 2 t.c t.a with
+          | panic => rw [h3] at h; cases h
+          | err e => rw [h3] at h; cases h
+          | ok st3 =>
+            rw [h3] at h
+            simp only at h
+            obtain ⟨m3, l3⟩ := addHalfEdge_map h3
+            have hpre : (pre ++ [t]).length = pre.length + 1 := by simp
+            rw [← hpre] at h
+            refine ih (pre ++ [t]) { st3 with faces := st3.faces ++ [st.hes.length] } (by rw [hidx]; simp)
+              (by simp only; rw [l3, l2, l1, hlen, hpre]; omega) ?_ h
+            simp only
+            rw [m3, m2, m1]
+            intro x hx
+            simp only [List.mem_cons] at hx
+            rcases hx with rfl | rfl | rfl | hx
+            · exact ⟨pre.length, 2, t, htri, by omega, by simp only; omega, by simp [Tri.get]⟩
+            · exact ⟨pre.length, 1, t, htri, by omega, by simp only; omega, by simp [Tri.get]⟩
+            · exact ⟨pre.length, 0, t, htri, by omega, by simp only; omega, by simp [Tri.get]⟩
+            · exact hi x hx
+
+/-- **the twin of a half-edge is the oppositely directed half-edge**: if half-edge `i` (from vertex `a` to the vertex `b`
+of `next(i)`) has a twin `j`, then `j` starts at `b` and its `next` starts at `a` -/
+theorem topology_twin_opposite (nv : Nat) (idx : List Tri) (t : Topology) (h : computeTopology nv idx = .ok t)
+    (hsmall : 3 * idx.length < umax) (i : Nat) (he : HalfEdge) (hget : t.halfEdges[i]? = some he)
+    (htw : he.twin ≠ umax) :
+    ∃ hn tw twn, t.halfEdges[he.next]? = some hn ∧ t.halfEdges[he.twin]? = some tw ∧ t.halfEdges[tw.next]? = some twn ∧
+      tw.vertex = hn.vertex ∧ twn.vertex = he.vertex := by
+  have hlen := topology_length nv idx t h
+  have hE := fun f k tri ht hk => topology_halfEdge nv idx t h f k tri ht hk
+  unfold computeTopology at h
+  split at h
+  · cases h
+  · cases h
+  · rename_i st hst
+    split at h
+    · cases h
+    · rename_i hes hh
+      cases h
+      simp only at hget hlen hE ⊢
+      have hkv : MapKV st := topoFaces_kv idx 0 _ st
+        ⟨fun x hx => (by cases hx), fun x hx => (by cases hx), fun x hx => (by cases hx), fun h hh => (by cases hh)⟩ hst
+      have hgeo : MapGeom idx st.map := topoFaces_geom idx [] idx _ st rfl rfl (fun x hx => by cases hx) hst
+      have hpres := congrArg List.length (topoTwins_preserves _ _ _ _ hh)
+      simp only [List.length_map] at hpres
+      have hn : st.hes.length < umax := by omega
+      have hinit : TwinInv st.map st.hes.length st.hes := by
+        refine ⟨rfl, ?_, ?_⟩
+        · intro i he hg ht
+          exact absurd (hkv.notwin he (List.mem_of_getElem? hg)) ht
+        · intro i he hg ht
+          exact absurd (hkv.notwin he (List.mem_of_getElem? hg)) ht
+      have hfin := topoTwins_inv st.map st.map.reverse st.hes.length st.hes hes hn
+        (fun x hx => List.mem_reverse.mp hx) hkv.bound hkv.vals hinit hh
+      obtain ⟨x, hx, y, hy, ex, ey, eyk⟩ := hfin.char i he hget htw
+      obtain ⟨f, k, tri, ht, hk, e2, e1⟩ := hgeo x hx
+      obtain ⟨f', k', tri', ht', hk', e2', e1'⟩ := hgeo y hy
+      -- half-edge i = 3f+k and its next
+      obtain ⟨h0, g0, n0, v0, _⟩ := hE f k tri ht hk
+      obtain ⟨h1, g1, n1, v1, _⟩ := hE f ((k + 1) % 3) tri ht (Nat.mod_lt _ (by omega))
+      obtain ⟨h0', g0', n0', v0', _⟩ := hE f' k' tri' ht' hk'
+      obtain ⟨h1', g1', n1', v1', _⟩ := hE f' ((k' + 1) % 3) tri' ht' (Nat.mod_lt _ (by omega))
+      rw [← e2, ex, hget] at g0
+      cases g0
+      rw [← e2', ey] at g0'
+      rw [e1, e1'] at eyk
+      simp only [Prod.mk.injEq] at eyk
+      refine ⟨h1, h0', h1', by rw [n0]; exact g1, g0', by rw [n0']; exact g1', ?_, ?_⟩
+      · rw [v0', v1, eyk.1]
+      · rw [v1', v0, eyk.2]
+
+/-- non-vacuity: two triangles sharing the edge `1-2`: half-edge 1 goes `1 → 2`, its twin 3 goes `2 → 1` -/
+example : ∃ t, computeTopology 4 [⟨0, 1, 2⟩, ⟨2, 1, 3⟩] = .ok t ∧
+    t.halfEdges.map (fun h => (h.vertex, h.next, h.twin)) =
+      [(0, 1, umax), (1, 2, 3), (2, 0, umax), (2, 4, 1), (1, 5, umax), (3, 3, umax)] := by
+  refine ⟨_, rfl, ?_⟩
+  decide
+
 end C11
